@@ -2320,6 +2320,10 @@ def serialize_value_into(
         serialize_type_into(value_info_proto.type, from_.type)
     # Need to create the type _before_ writing the shape so that the shape can be written to the leaf type proto
     if from_.shape is not None:
+        if from_.type is None:
+            # The element type is unknown but the shape is known: record a tensor type without elem_type,
+            # which deserialize_type_proto_for_type/_for_shape read back as (type=None, shape=shape)
+            value_info_proto.type.tensor_type.SetInParent()
         serialize_shape_into(value_info_proto.type, from_.shape)
     if from_.doc_string:
         value_info_proto.doc_string = from_.doc_string
